@@ -434,6 +434,14 @@ def envelopes(n):
 
 def build(entry, plan):
     p = dict(plan)
+    if 'mixed' in p:
+        # one file: an interchange of this map followed by one (two sets) of another map / version
+        other = [e for e in corpus.one_entry_per_map() if e[4] == p['mixed']]
+        d1 = corpus.build_ok(tuple(entry), {})
+        d2 = corpus.build_ok(other[0], {'sets': 2}) if other else None
+        if d1 is None or d2 is None:
+            return None
+        return gen.concat(d1, d2)
     if 'include' in p:
         p['include'] = set(p['include'])
     if 'repeat' in p:
@@ -459,6 +467,10 @@ QUICK_PLANS = [('min', {}), ('all-filled', {'all': True, 'fill_all': True}), ('a
                ('ta1-two-groups', {'ta1': True, 'groups': 2, 'interchanges': 2})]
 
 
+# files that hold interchanges of different maps and versions: the map (and the version that selects it) is chosen per interchange
+MIXED = ('834.4010.X095.A1.xml', '834.5010.X220.A1.xml', '835.5010.X221.A1.xml', '837.4010.X098.A1.xml')
+
+
 def work_docs(shard):
     """second family: the shared conformant corpus (quick: 8 shapes per map; thorough: every single deviation
     from the minimal document, gen.plans_d1), each document read with every loop id that occurs in it, one
@@ -471,6 +483,8 @@ def work_docs(shard):
         if n.id not in ids:
             ids.append(n.id)
     plans = (list(gen.plans_d1(entry)) if thorough else QUICK_PLANS) + list(gen.plans_boundary(entry, thorough))
+    if entry[4] in MIXED:
+        plans += [('mixed:' + o, {'mixed': o}) for o in MIXED if o != entry[4]]
     for pi, (name, plan) in enumerate(plans):
         if pi % nparts != part:
             continue
@@ -622,6 +636,7 @@ def run(R):
                               'in-repeated-parent, twice-in-repeated-parent, all-loops-of-this-id, everything; envelope loops: once, twice, in/twice-in repeated parent, everything(-twice), after a TA1 (x1, x2 interchanges x 2 groups)',
                 'envelopes': 'each placement alone, with 2 sets, with 2 groups',
                 'loop ids per document': 'the id of the placed loop, of %s, and None' % ('every enclosing loop' if R.thorough else 'its nearest enclosing loop'),
+                'mixed files': 'an interchange of one map followed by one of another map / version, all ordered pairs of %s, read with every loop id present and None' % ', '.join(MIXED),
                 'corpus family': ('every single deviation from the minimal document (gen.plans_d1) of every map' if R.thorough else
                                   '10 shapes per map (min, all, all-filled, last codes, 2 sets / groups / interchanges, all x 2 sets x 2 groups, all swapped, TA1 + 2 interchanges x 2 groups; for the 834: a 160-set document, LF / CRLF, one value lengthened by 0..29 characters so that terminators and line breaks meet the 8 KiB read boundaries)')
                                  + ', each read with every loop id occurring in it, one anchored loop id that does not occur, and None'}
